@@ -174,6 +174,20 @@ func c17Rules(p *core.Prog, r *core.Run) {
 		case st.Parent() == m.dial:
 			pub := core.HasFact(fs, ">", `len\(p0\.PublicName\)`, `0`)
 			fromCfg := v.Op == "ext" && v.Args[0].Name == "ech.ConfigList"
+			if ph, isPhi := st.Val.(*ssa.Phi); isPhi {
+				// assigned on several ways (an `if err == nil` ladder): the ways
+				// that are still possible once the error test has passed
+				fromCfg = true
+				n := 0
+				for _, i := range feasibleEdges(p, ph, st.Block()) {
+					n++
+					a := p.X(ph.Edges[i])
+					if !(a.Op == "ext" && a.Args[0].Name == "ech.ConfigList") {
+						fromCfg = false
+					}
+				}
+				fromCfg = fromCfg && n > 0
+			}
 			r.Check("C17.KEEP", "Dial:bootstrap-list", needECH && pub && fromCfg, p.InstrPos(st), "the PublicName bootstrap list is installed only when the caller supplied none (%v) and PublicName is set (%v)", needECH, pub)
 			needECHok = needECH
 		case st.Parent() == m.worker:
